@@ -98,6 +98,12 @@ func TestC15(t *testing.T) {
 		if j.twoAEADs {
 			aeads = append(aeads, []uint16{1, 2, 3}[rg.Intn(3)])
 		}
+		if i%5 == 3 {
+			// the config's suite list starts with suites of KDFs the client does not implement
+			// (HKDF-SHA384 / -SHA512 with ordinary AEADs): it has to pick the first one it can use
+			aeads = append([]uint16{0x0200 | uint16(1+rg.Intn(3)), 0x0300 | uint16(1+rg.Intn(3))}[:1+rg.Intn(2)], aeads...)
+			r.Count("configs_with_foreign_kdf_suites_first", 1)
+		}
 		key := peer.NewECHKey(j.cfgID, public, aeads, j.maxName)
 		scfg := peer.ServerConfig()
 		scfg.Certificates = []tls.Certificate{leaf}
